@@ -15,7 +15,7 @@ class Checker:
     def __init__(self, unit, tier='quick', timeout_s=60, semantics='bv'):
         self.unit = unit; self.tier = tier; self.timeout_s = timeout_s; self.semantics = semantics
         self.obs = []; self.inconclusive = []; self.vacuity = []; self.functions = set(); self.paths = {}
-        self.queries = 0; self.solver_s = 0.0; self.solvers_used = {}; self._seen_mem = set(); self.slicing = True; self._varcache = {}; self._keep = []; self.nviol = 0; self.skipped = 0; self.prefer = None; self.max_violations = int(os.environ.get('VERIF_MAX_VIOLATIONS', '4'))
+        self.queries = 0; self.solver_s = 0.0; self.solvers_used = {}; self._seen_mem = set(); self.slicing = True; self._varcache = {}; self._keep = []; self.nviol = 0; self.nsat = 0; self.skipped = 0; self.prefer = None; self.max_violations = int(os.environ.get('VERIF_MAX_VIOLATIONS', '4'))
         self._known = [f for f in load_known()[0]]; self.selfchecks = []; self.notes = []; self.errors = []
         self.t0 = time.time()
     # --- core
@@ -66,13 +66,14 @@ class Checker:
         return r, model, dt, info
     def prove(self, name, pc, claim, site=None, decode=None, replay=None, semantics=None, timeout_s=None, sample=None, tactic=None, kind='post', prefer=None):
         """claim must hold under pc. sat => counterexample (decoded, replayed)."""
-        if self.nviol >= self.max_violations:
+        if self.nviol >= self.max_violations or self.nsat >= 3 * self.max_violations:
             # enough replayed, unlisted violations in this unit: the run already fails; remaining obligations are not attempted
             self.skipped += 1; return z3.unknown
         r, m, dt, info = self._solve(pc, [z3.Not(claim)], timeout_s, tactic)
         ob = {'name': name, 'site': site or name, 'status': r, 'time_s': round(dt, 3), 'semantics': semantics or self.semantics, 'kind': kind}
         if info.get('solver', 'z3') != 'z3': ob['solver'] = info['solver']
         ob['sample'] = sample if sample is not None else '%s [site %s; %d path constraints]' % (name, site or name, len(pc))
+        if r == 'sat': self.nsat += 1
         if r == 'sat' and (prefer or self.prefer):
             # a counterexample exists: look for one that is convenient to replay (small sizes); the verdict does not depend on it
             r2, m2, dt2, info2 = self._solve(list(pc) + list(prefer or self.prefer), [z3.Not(claim)], timeout_s, tactic)
@@ -129,21 +130,25 @@ class Checker:
     def report(self):
         return {'unit': self.unit, 'obligations': self.obs, 'inconclusive': self.inconclusive, 'vacuity': self.vacuity,
                 'functions': sorted(self.functions), 'paths': self.paths, 'queries': self.queries, 'solver_s': round(self.solver_s, 3),
-                'selfchecks': self.selfchecks, 'solvers_used': self.solvers_used, 'notes': self.notes + (['%d obligations not attempted after %d replayed violations' % (self.skipped, self.nviol)] if self.skipped else []), 'errors': self.errors, 'wall_s': round(time.time() - self.t0, 2)}
+                'selfchecks': self.selfchecks, 'solvers_used': self.solvers_used, 'notes': self.notes + (['%d obligations not attempted after %d counterexamples (%d replayed)' % (self.skipped, self.nsat, self.nviol)] if self.skipped else []), 'errors': self.errors, 'wall_s': round(time.time() - self.t0, 2)}
+
+
+class UnitTimeout(BaseException):
+    """wall budget of a unit exceeded (BaseException so that no `except Exception` in a harness or replay swallows it)"""
 
 
 # ------------------------------------------------------------------ parallel scheduling
 def _unit_entry(args):
     modname, uname, fname, kwargs, tier, budget = args
     t0 = time.time()
-    def on_alarm(sig, frm): raise TimeoutError('unit wall budget %ds exceeded' % budget)
+    def on_alarm(sig, frm): raise UnitTimeout('unit wall budget %ds exceeded' % budget)
     signal.signal(signal.SIGALRM, on_alarm); signal.alarm(int(budget))
     try:
         mod = importlib.import_module(modname)
         rep = getattr(mod, fname)(tier=tier, **kwargs)
         if hasattr(rep, 'report') and not isinstance(rep, dict): rep = rep.report()
         rep['unit'] = uname
-    except TimeoutError as e:
+    except UnitTimeout as e:
         rep = {'unit': uname, 'obligations': [], 'inconclusive': ['timeout: %s' % e], 'vacuity': [], 'functions': [], 'paths': {}, 'queries': 0,
                'solver_s': 0, 'selfchecks': [], 'notes': [], 'errors': []}
     except BaseException as e:
